@@ -670,6 +670,64 @@ def normOut : List OTok → List OTok
     | r' => if a.isEmpty then r' else .text a :: r'
   | x :: r => x :: normOut r
 
+/-! ### what the deserialiser takes out of the tree
+
+The parser leaves entity references as nodes; whether their replacement text is materialised
+depends on HOW the code that builds a value reads the tree: `element.text` reads the text node in
+front of the first child, whereas libxml2's string value (`xpath('string()')`, `itertext` on a
+resolved tree, `tostring(method='text')`) substitutes the replacement text of entity nodes. -/
+
+/-- the kinds of parameters / members whose values are taken from the tree by different code -/
+inductive Kind where
+  | unicode        -- a primitive parameter (unicode_from_element / base_from_element)
+  | arrayItem      -- a primitive inside an Array
+  | nestedMember   -- a primitive member of a nested ComplexModel
+  | xmlData        -- an XmlData member (the element's own character data)
+  | anyDictLeaf    -- a leaf of an AnyDict value (spyne.util.etreeconv.etree_to_dict)
+  | anyXml         -- AnyXml: the child element itself is handed to user code
+  | anyHtml        -- AnyHtml: likewise
+  deriving DecidableEq, Repr
+
+inductive ReadRule where
+  | textNodesOnly   -- the text node in front of the first child node (`element.text`)
+  | stringValue     -- libxml2's string value: entity nodes contribute their replacement text
+  | element         -- nothing is read: the element is passed on as parsed
+  | refused         -- a value of this kind that contains an entity node is not accepted at all (no call)
+  | other
+  deriving DecidableEq, Repr
+
+/-- `element.text`: the leading text node -/
+def leadText : List OTok → Text
+  | .text t :: r => t ++ leadText r
+  | _ => []
+
+/-- libxml2's string value of an element's content -/
+def stringValue (c : Cfg) : List OTok → Text
+  | [] => []
+  | .text t :: r => t ++ stringValue c r
+  | .ent n :: r => (textAt c .attr c.fuel n).1 ++ stringValue c r
+  | _ :: r => stringValue c r
+
+/-- the text a leaf value is built from -/
+def deliverLeaf (rule : ReadRule) (c : Cfg) (content : List OTok) : Text :=
+  match rule with
+  | .textNodesOnly => leadText content
+  | .stringValue => stringValue c content
+  | _ => []
+
+/-- the content of the first element with the given tag (up to its matching close) -/
+def contentOf (tag : Text) : List OTok → List OTok
+  | [] => []
+  | .open t _ :: r => if t = tag then takeBalanced 0 r else contentOf tag r
+  | _ :: r => contentOf tag r
+where
+  takeBalanced : Nat → List OTok → List OTok
+    | _, [] => []
+    | 0, .close :: _ => []
+    | d + 1, .close :: r => .close :: takeBalanced d r
+    | d, .open t a :: r => .open t a :: takeBalanced (d + 1) r
+    | d, x :: r => x :: takeBalanced d r
+
 /-! ## 4. the request path -/
 
 inductive Transport where
@@ -717,6 +775,9 @@ structure Facts17 where
   liveAtRequest : Proto → Validator → ParserKw
   /-- statements in spyne/ that write to a `parser_kwargs` outside an `__init__` -/
   kwWritesOutsideInit : Nat
+  /-- how each kind of value is read from the tree (measured: an internal entity referenced after
+      some text inside a value of that kind, default settings) -/
+  deliver : Kind → ReadRule
   /-- lxml's module default parser, measured by behaviour -/
   lxmlDefault : ParserKw
   lib : Lib
